@@ -44,4 +44,6 @@ def run(ctx):
     nf = edddmp.check_header_units(ctx, F)
     ctx.floor("E-DDDMP.fields", "numbers interpolated under .ids / .permids", nf, 2)
     edddmp.check_numbering(ctx, F)
+    ctx.explain("E-DDDMP.order: the importer rejects a node whose level is >= the level of one of its children (import_ascii, import_bin).")
+    edddmp.check_level_order_checks(ctx, F)
     ctx.not_decided = "round-trip equality of diagrams, totality on malformed input (value reasoning about indices and counts)"
